@@ -44,7 +44,7 @@ Definition kw_wrap_step (bsz a : Z) (r : list Z) (i : Z) : res unit :=
 
 (* Wrap(block, cek): [bsz] = block.BlockSize() (16 for AES); result = len(c) *)
 Definition kw_wrap (bsz cekLen : Z) : res Z :=
-  if negb (cekLen mod 8 =? 0) then err
+  if (cekLen =? 0) || negb (cekLen mod 8 =? 0) then err   (* len(cek) == 0 || len(cek)%8 != 0 (C03 fix) *)
   else
     bind (len_make 8) (fun a =>
     let n := cekLen / 8 in
@@ -344,7 +344,7 @@ Definition enc_dispatch (alg : list N) : res (option Z) :=
 
 Example sym_ex1 : kw_wrap 16 16 = Ok 24. Proof. reflexivity. Qed.
 Example sym_ex2 : kw_wrap 16 15 = err. Proof. reflexivity. Qed.
-Example sym_ex3 : kw_wrap 16 0 = Ok 8. Proof. reflexivity. Qed.
+Example sym_ex3 : kw_wrap 16 0 = err. Proof. reflexivity. Qed.
 Example sym_ex4 : kw_unwrap Original 16 24 24 true = Ok 16. Proof. reflexivity. Qed.
 Example sym_ex5 : kw_unwrap Original 16 5 5 false = Panic. Proof. reflexivity. Qed.
 Example sym_ex6 : kw_unwrap Original 16 8 8 true = Panic. Proof. reflexivity. Qed.
